@@ -520,9 +520,13 @@ void SPxSolverBase<R>::computeLeaveCoPrhs4Col(int i, int n)
       (*theCoPrhs)[i] = theLCbound[n];
       break;
 
+   case SPxBasisBase<R>::Desc::P_FREE :
+      // rowwise representation: free variable that is left at zero
+      (*theCoPrhs)[i] = 0;
+      break;
+
    default:
       (*theCoPrhs)[i] = this->maxObj(n);
-      //      (*theCoPrhs)[i] = 0;
       break;
    }
 }
